@@ -75,6 +75,13 @@ class AppLeaf(AppMid):
     pass
 
 
+class FalsyError(Exception):
+    """An exception whose truth value is False (e.g. an aggregate with no sub-errors)."""
+
+    def __len__(self):
+        return 0
+
+
 def _mk_exc(i, n):
     if i == 0:
         return ValueError("v-%d" % n)
@@ -92,10 +99,12 @@ def _mk_exc(i, n):
         return SystemExit(3)
     if i == 7:
         return AppLeaf(n)
+    if i == 8:
+        return FalsyError("falsy-%d" % n)
     raise IndexError(i)
 
 
-N_EXC = 8
+N_EXC = 9
 N_OPEN = 6
 N_MSG = 6
 N_FIN = 3
@@ -260,6 +269,8 @@ class Interp(object):
         k = int(self.shard.get("types", 1))
         if k > 1:
             return "t:type%d" % self.ctx.choose(k, "action type")
+        if self.shard.get("empty_type") and st in (0, 1, 2):
+            return ""  # start_action()'s default action type
         return "t:act%d" % st
 
     def value(self):
@@ -267,6 +278,9 @@ class Interp(object):
         return VALUE_MENU[(self.n * 5 + 2) % len(VALUE_MENU)]
 
     def style(self, dim, n):
+        menu = self.shard.get(dim + "_menu")
+        if menu:
+            return int(menu[self.ctx.choose(len(menu), dim)])
         if self.shard.get("free"):
             return self.ctx.choose(n, dim)
         return int(self.shard.get(dim, 0))
@@ -461,7 +475,7 @@ class Interp(object):
         saved_stack = None
         if st == 5:
             # start_task: a new tree whatever the context
-            ref = RefAction("t:task", {"x": v}, st, new_tree=True)
+            ref = RefAction("t:act0" if self.shard.get("same_type_tasks") else "t:task", {"x": v}, st, new_tree=True)
         elif st == 3:
             ref = RefAction("t:logcall", {"x": v}, st)
         elif st == 4:
